@@ -49,6 +49,7 @@ const VOCAB: &[&str] = &[
     "loop", "remove", "intersect", "from_text", "read_csv", "internal", "prql", "type", "import", "enum", "@{a=1}", "\n",
     // s-strings in relation and expression position, raw strings, strings with multi-byte text
     "from s\"SELECT * FROM t1\"", "s\"SELECT id, a FROM t1 WHERE a > 1\"", "s\"select 1 as id\"", "s\"SELECT\"", "s\"SEL\"", "s\"\"",
+    "\"\\u{0000041}\"", "\"\\u{110000}\"", "\"\\u{}\"", "\"\\u{D800}\"", "\"\\x4\"", "\"\\u{41\"", "f\"\\u{00000041}{a}\"",
     "(s\"SELECT * FROM {t1}\")", "s\"COALESCE({a}, 0)\"", "r\"a\\b\"", "\"é漢😀\"", "f\"é{a}漢\"", "'''a'''", "\"\\u{1F600}\"", "\"\\x41\"",
 ];
 
@@ -392,6 +393,9 @@ pub enum Driven {
     Infra(String),
 }
 
+static HANG_CONFIRMED: std::sync::atomic::AtomicBool = std::sync::atomic::AtomicBool::new(false);
+static HANG_TIMEOUTS: std::sync::atomic::AtomicU32 = std::sync::atomic::AtomicU32::new(0);
+
 thread_local! {
     static WORKER: std::cell::RefCell<Option<Worker>> = const { std::cell::RefCell::new(None) };
 }
@@ -413,7 +417,9 @@ pub fn drive_isolated(case: &Case) -> Driven {
             *w = None;
             return Driven::Died(st.and_then(|s| s.signal()));
         }
-        match worker.rx.recv_timeout(std::time::Duration::from_secs(60)) {
+        // after a hang has been confirmed once, later cases (mostly shrink steps of it) are given 5 s
+        let limit = if HANG_CONFIRMED.load(std::sync::atomic::Ordering::Relaxed) { 5 } else { 60 };
+        match worker.rx.recv_timeout(std::time::Duration::from_secs(limit)) {
             Ok(resp) => {
                 let v: Value = serde_json::from_str(&resp).unwrap_or(Value::Null);
                 let reached = v["reached"].as_str().unwrap_or("?").to_string();
@@ -448,7 +454,50 @@ pub fn drive_isolated(case: &Case) -> Driven {
 pub fn check(case: &Case, known: &Known) -> Outcome {
     let (panic, reached) = match drive_isolated(case) {
         Driven::Done(p, r) => (p, r),
-        Driven::TimedOut => return Outcome::skip("timeout (inconclusive)").class("timeout"),
+        Driven::TimedOut => {
+            // no answer within 60 s. Slowness alone is inconclusive; but a short input without
+            // deep nesting (the recorded exponential parse times need >= 16 nested brackets / case /
+            // minus levels; at depth 12 they take well under a second) normally takes milliseconds:
+            // retry it once in a fresh worker, and if there is still no answer after another 60 s
+            // report it as not terminating.
+            let mut depth = 0i32;
+            let mut max_depth = 0i32;
+            for ch in case.input.chars() {
+                match ch {
+                    '(' | '[' | '{' => {
+                        depth += 1;
+                        max_depth = max_depth.max(depth);
+                    }
+                    ')' | ']' | '}' => depth -= 1,
+                    _ => {}
+                }
+            }
+            let minus_run = case.input.split(|c: char| c != '-' && c != ' ' && c != '!').map(|r| r.chars().filter(|c| *c != ' ').count()).max().unwrap_or(0);
+            let shallow = case.kind == "source" && case.input.len() <= 4096 && max_depth <= 12 && minus_run <= 12 && case.input.matches("case").count() <= 8;
+            let fail = |c: &Case| {
+                Outcome::fail(
+                    "no result within 2 x 60 s for a short, shallow source (a stage does not terminate)",
+                    json!({"kind": c.kind, "input": c.input, "bytes": c.input.len(), "max_bracket_depth": max_depth}),
+                )
+            };
+            if shallow && HANG_CONFIRMED.load(std::sync::atomic::Ordering::Relaxed) {
+                // bounded number of 5 s re-evaluations while the confirmed hang is being shrunk
+                if HANG_TIMEOUTS.fetch_add(1, std::sync::atomic::Ordering::Relaxed) < 60 {
+                    return fail(case);
+                }
+                return Outcome::skip("timeout (inconclusive)").class("timeout");
+            }
+            if shallow {
+                if let Driven::TimedOut = drive_isolated(case) {
+                    HANG_CONFIRMED.store(true, std::sync::atomic::Ordering::Relaxed);
+                    return fail(case);
+                }
+            }
+            eprintln!("C12: time-out (inconclusive) on a {} input of {} bytes: {:?}", case.kind, case.input.len(), case.input.chars().take(300).collect::<String>());
+            let mut o = Outcome::skip("timeout (inconclusive)").class("timeout");
+            o.sample = Some(json!({"timeout_input": case.input.chars().take(600).collect::<String>(), "kind": case.kind}));
+            return o;
+        }
         Driven::Infra(e) => return Outcome::skip(&format!("infrastructure: {e}")),
         Driven::Died(sig) => {
             let id = format!("C12-abort-{}", case.kind);
